@@ -232,7 +232,14 @@ func runScenario(sc *Scenario, replay []simrt.Decision, record bool) *outcome {
 	sim := simrt.New(cfg)
 	w.sim = sim
 	simrt.EnableShared(true)
+	gc0 := numGC()
 	res := sim.Run(w.main)
+	if numGC() != gc0 && len(sim.Races) > 0 {
+		// a collection ran during the run (memory limit): freed addresses may have been reused,
+		// the address-keyed race detector cannot be trusted for this run
+		w.probes.Add("race_reports_dropped_gc_during_run", int64(len(sim.Races)))
+		sim.Races = nil
+	}
 	o := &outcome{w: w, res: res, trace: sim.Trace}
 	if sim.Fail != "" {
 		o.trouble = sim.Fail
@@ -427,4 +434,10 @@ func siteInfo(id int32) simrt.SiteInfo {
 // carriesFrames: objects whose contents are frame bytes on their way to the consumer.
 func carriesFrames(typ string) bool {
 	return strings.HasPrefix(typ, "bytes.Buffer.") || strings.HasPrefix(typ, "util.Buffer.")
+}
+
+func numGC() uint32 {
+	var ms runtime.MemStats
+	runtime.ReadMemStats(&ms)
+	return ms.NumGC
 }
